@@ -128,7 +128,10 @@ class Case:
             return None
         if w["kind"] == "scalar":
             return float(w["w"])
-        vals = np.array([float(x) for x in w["w"]], dtype=float)
+        # "scale": the implementation sees every weight multiplied by a large factor (expansion weights in the thousands);
+        # the specification keeps the unscaled ones - a weighted mean and the set of missing cells do not depend on the
+        # unit weights are expressed in, and TLC's integers are 32-bit. Only used with the mean.
+        vals = np.array([float(x * w.get("scale", 1)) for x in w["w"]], dtype=float)
         valid = np.asarray(w["valid"], dtype=bool)
         if w["form"] == "nan":
             vals = vals.copy()
